@@ -107,7 +107,7 @@ def run(ctx):
     rng = np.random.default_rng([ctx.seed, 1010])
     cases = []
     cid = 0
-    for rep in range(1 if quick else 8):
+    for rep in range(1 if quick else 20):
         for parent in forest_shapes(4):
             for G in (2, 3, 4, 5, 6):
                 if len(parent) == 4 and G == 6:
@@ -120,7 +120,7 @@ def run(ctx):
                 cases.append({"id": cid, "mode": "brute", "forest": f.describe(), "G": G, "D": 1 + cid % 2,
                               "kind": ["moderate", "smooth", "flat", "binom"][cid % 4]})
                 cid += 1
-    for i in range(200 if quick else 4000):
+    for i in range(200 if quick else 20000):
         n = int(rng.integers(1, 11))
         f = gen.random_forest(rng, n, max_children=8, shape=[None, "star", "bushy", "chain"][i % 4], n_tops=[None, 1, 4][i % 3])
         cases.append({"id": cid, "mode": "recursive", "forest": f.describe(), "G": [11, 21, 11, 101][i % 4] if n <= 7 else 11,
